@@ -40,6 +40,12 @@ CONFIG_MACROS = {
     'XALAN_HAVE_ISNAN': True,
     'XALAN_HAVE__ISNAN': False,
     '__cplusplus': True,
+    '_MSC_VER': False,
+    'XALAN_XPATH_EXPRESSION_USE_ITERATORS': True,   # #define'd unconditionally in XPathExpression.hpp
+    '__INTEL_COMPILER': False,
+    '_WIN32': False,
+    'WIN32': False,
+    '__GNUC__': True,
 }
 
 
@@ -112,7 +118,9 @@ def _eval_cond(kind, expr, dropped):
     e = re.sub(r'\b[A-Za-z_]\w*\b', bare, e)
     e = e.replace('&&', ' and ').replace('||', ' or ')
     e = re.sub(r'!(?!=)', ' not ', e)
-    if not re.fullmatch(r'[\sA-Za-z()]*', e):
+    e = re.sub(r'(?<![\w.])0(?![\w.])', ' False ', e)
+    e = re.sub(r'(?<![\w.])[1-9]\d*(?![\w.])', ' True ', e)
+    if not re.fullmatch(r'[\sA-Za-z()<>=]*', e):
         raise ExtractionBreak('unsupported preprocessor expression: %s' % expr)
     try:
         return bool(eval(e, {'__builtins__': {}}, {}))
